@@ -203,6 +203,16 @@ def translate_seq_validation():
     return out
 
 
+def translate_cwksp_free():
+    """does ZSTD_cwksp_free reset the workspace descriptor (so that a failed re-creation leaves the context owning nothing)?"""
+    h = read("lib/compress/zstd_cwksp.h")
+    b = func_body(h, r"MEM_STATIC\s+void\s+ZSTD_cwksp_free\s*\([^)]*\)\s*\{") or ""
+    b = re.sub(r"/\*.*?\*/", " ", b, flags=re.S)
+    clears = re.search(r"ZSTD_memset\(\s*ws\s*,\s*0\s*,\s*sizeof\s*\(\s*ZSTD_cwksp\s*\)\s*\)", b) is not None or \
+        re.search(r"ws->workspace\s*=\s*NULL", b) is not None
+    return clears
+
+
 def lean_int(v):
     return "(%d)" % v if v < 0 else str(v)
 
@@ -283,6 +293,11 @@ def emit(tables, cps, dps):
     q += "def posAtValidationNoDelim (pos ll ml : Nat) : Nat := %s\n" % sv["ZSTD_copySequencesToSeqStoreNoBlockDelim"]
     q += "\nend ZstdVerif.Gen.SeqVal\n"
     files["SeqVal.lean"] = q
+    w = hdr + "namespace ZstdVerif.Gen.Cwksp\n\n"
+    w += "/-- ZSTD_cwksp_free resets the workspace descriptor after handing the block back (translated from the function body) -/\n"
+    w += "def freeClearsDescriptor : Bool := %s\n" % ("true" if translate_cwksp_free() else "false")
+    w += "\nend ZstdVerif.Gen.Cwksp\n"
+    files["Cwksp.lean"] = w
     return files
 
 
